@@ -61,6 +61,7 @@ struct Step {
     val_acc: Vec<f32>,
     validate_after: Option<(f32, f32)>,
     validate: Option<(f32, f32)>,
+    batch_out: Option<Vec<Vec<u32>>>,
 }
 
 const LEARN_TOL: f32 = 1e-6;
@@ -114,8 +115,8 @@ fn apply(r: &mut Ready, case: &Case, op: &Op, ctx: &mut Ctx, step: &mut Step) {
             let _ = r.net.predict(&r.xs[0]);
         }
         Op::PredictBatch => {
-            let xr: Vec<&tensor::Tensor> = r.xs.iter().collect();
-            let _ = r.net.predict_batch(&xr);
+            let xr: Vec<&tensor::Tensor> = r.xs.iter().chain(r.vx.iter()).collect();
+            step.batch_out = Some(r.net.predict_batch(&xr).iter().map(|t| bits(&flat(t))).collect());
         }
     }
 }
@@ -324,14 +325,46 @@ impl Property for C09 {
             }
             // (b) predict equals the dropout-free twin with the same parameters
             let params = step.params.clone();
+            let want_validate = step.validate.is_some();
+            let want_batch = step.batch_out.is_some();
             let (twin, twin_info) = run_env(&ref_env, |_| {
                 let mut r = prepare(case, &plain);
                 set_parameters(&mut r.net, &params);
-                probe_inputs(&r).iter().map(|x| bits(&flat(&r.net.predict(x)))).collect::<Vec<_>>()
+                let probes = probe_inputs(&r).iter().map(|x| bits(&flat(&r.net.predict(x)))).collect::<Vec<_>>();
+                let batch = if want_batch {
+                    let xr: Vec<&tensor::Tensor> = r.xs.iter().chain(r.vx.iter()).collect();
+                    Some(r.net.predict_batch(&xr).iter().map(|t| bits(&flat(t))).collect::<Vec<_>>())
+                } else {
+                    None
+                };
+                let validate = if want_validate {
+                    let vxr: Vec<&tensor::Tensor> = r.vx.iter().collect();
+                    let vyr: Vec<&tensor::Tensor> = r.vy.iter().collect();
+                    Some(r.net.validate(&vxr, &vyr, LEARN_TOL))
+                } else {
+                    None
+                };
+                (probes, batch, validate)
             });
             stats.execution(&ref_env, &twin_info);
             match twin {
-                Ok(t) => {
+                Ok((t, twin_batch, twin_validate)) => {
+                    if let (Some((gl, ga)), Some((el, ea))) = (step.validate, twin_validate) {
+                        if !rel_close(gl, el) || !rel_close(ga, ea) {
+                            return Outcome::Violation(Violation {
+                                class: "validate_differs_from_dropout_free_twin".into(),
+                                detail: format!("operation {} (Validate): (loss {:e}, acc {:e}) but the same network without dropout validates to (loss {:e}, acc {:e})", i, gl, ga, el, ea),
+                                signature: sig,
+                            });
+                        }
+                    }
+                    if step.batch_out.is_some() && step.batch_out != twin_batch {
+                        return Outcome::Violation(Violation {
+                            class: "predict_batch_differs_from_dropout_free_twin".into(),
+                            detail: format!("operation {} (PredictBatch): outputs differ from the same network without dropout", i),
+                            signature: sig,
+                        });
+                    }
                     if t != step.probes {
                         return Outcome::Violation(Violation {
                             class: "predict_differs_from_dropout_free_twin".into(),
